@@ -2,18 +2,26 @@
 // no_std + alloc only. Everything that is *not* under test (reading the case file, fstat, getpid,
 // opening RawFd files) uses the raw system calls below, not rusl/tiny-std wrappers.
 //
-// Case file: one case per line, space separated `key=value` tokens (byte strings hex encoded):
-//   id=<n> bin=<hex> arg=<hex>* env=<hex>* cwd=<hex> uid=<n> gid=<n> pg=<n|-1 (probe's own pgid)>
+// Case file: one line = one `Command` value; space separated `key=value` tokens (byte strings hex encoded) are
+// BUILDER CALLS executed in the order written, `spawn=<case id>` spawns with what has been configured so far
+// (a line without `spawn=` spawns once at its end with case id `id`; several `spawn=` re-use the Command):
+//   id=<n> bin=<hex>  arg=<hex> (one Command::arg)  args=<hex|->,<hex|->.. (one Command::args batch, may be empty)
+//   env=<hex> / envs=<..,..> likewise   cwd=<hex> uid=<n> gid=<n> pg=<n|-1 (probe's own pgid)>
 //   in=|out=|err= <i|n|p|r<hexpath>|w<hexpath>|b<hexpath>|s<stream>|x<fd>>   (absent = not configured)
 //       r/w/b: Stdio::RawFd of a file opened here read-only / write-append / read-write; s<k>: the very same
 //       descriptor as stream k (k < this stream); x<fd>: that descriptor number as is (0-2 = the caller's own
 //       standard streams, which the spawn takes over and closes: they are saved and restored around the case)
-//   pre=<count of succeeding closures>  prefail=<index>:<errno>   (closure <index> returns Err(errno))
-//   inj=<scope>,<nr>,<k>,<ret>,<count>*   payload=<hex>   wait2=1 (wait twice)   trywait=1 (poll try_wait)
+//   pre=<n> adds n succeeding pre-exec closures, prefail=<errno> one that returns Err(errno) (indices run on)
+//   inj=<scope>,<nr>,<k>,<ret>,<count> armed right before the next spawn   payload=<hex>
+//   wait2=1 (wait twice)  trywait=1 (poll try_wait)  holdstdin=1 (wait() is called while the Child still owns its
+//   stdin pipe: closing it is wait's job)  closefd=<0|1|2> (the caller's descriptor is closed for the following spawns
+//   and restored at the end of the line)
+//   With several spawns per line the helper's dump `<bin>.dump` is renamed to `<bin>.dump.<case id>` after each.
 //
 // Markers (REPORT a-field): see the K_* constants; the driver (checks/c13.py) reads them from the sysmon log.
 use alloc::boxed::Box;
 use alloc::vec::Vec;
+use core::sync::atomic::{AtomicI64, Ordering};
 use rusl::error::Errno;
 use rusl::platform::Fd;
 use rusl::string::unix_str::{UnixStr, UnixString};
@@ -99,6 +107,10 @@ mod sys {
     pub fn dup3(old: isize, new: isize) -> isize {
         unsafe { sc6(292, old as usize, new as usize, 0, 0, 0, 0) }
     }
+    /// both NUL terminated
+    pub fn rename(from: &[u8], to: &[u8]) -> isize {
+        unsafe { sc6(82, from.as_ptr() as usize, to.as_ptr() as usize, 0, 0, 0, 0) }
+    }
     pub fn fcntl_getfd(fd: isize) -> isize {
         unsafe { sc6(72, fd as usize, 1, 0, 0, 0, 0) }
     }
@@ -155,9 +167,10 @@ fn cstr(mut v: Vec<u8>) -> Vec<u8> {
     v
 }
 
+static CUR_CASE: AtomicI64 = AtomicI64::new(-1);
+
 #[derive(Clone)]
 enum Io {
-    Unset,
     Inherit,
     Null,
     Pipe,
@@ -168,22 +181,36 @@ enum Io {
     Raw(i32),
 }
 
-struct Case {
+enum Op {
+    Arg(usize),
+    Args(usize, usize), // range in Line::args
+    Env(usize),
+    Envs(usize, usize),
+    Cwd(usize),
+    Uid(i64),
+    Gid(i64),
+    Pg(i64),
+    Io(usize, Io),
+    Pre(i64),
+    PreFail(i64),
+    Inj([i64; 5]),
+    Payload(usize),
+    Wait2(bool),
+    TryWait(bool),
+    HoldStdin(bool),
+    CloseFd(i64),
+    Spawn(i64),
+}
+
+struct Line {
     id: i64,
     bin: Vec<u8>,
     args: Vec<Vec<u8>>,
     envs: Vec<Vec<u8>>,
-    cwd: Option<Vec<u8>>,
-    uid: Option<i64>,
-    gid: Option<i64>,
-    pg: Option<i64>,
-    io: [Io; 3],
-    pre: i64,
-    prefail: Option<(i64, i64)>,
-    inj: Vec<[i64; 5]>,
-    payload: Vec<u8>,
-    wait_twice: bool,
-    try_wait: bool,
+    paths: Vec<Vec<u8>>,
+    payloads: Vec<Vec<u8>>,
+    ops: Vec<Op>,
+    spawn_ids: Vec<i64>,
 }
 
 fn parse_io(v: &[u8]) -> Option<Io> {
@@ -200,23 +227,31 @@ fn parse_io(v: &[u8]) -> Option<Io> {
     }
 }
 
-fn parse_case(line: &[u8]) -> Option<Case> {
-    let mut c = Case {
+/// `a,b,c` with `-` for the empty string; the empty value is the empty batch
+fn parse_batch(v: &[u8], into: &mut Vec<Vec<u8>>) -> Option<(usize, usize)> {
+    let start = into.len();
+    if !v.is_empty() {
+        for part in v.split(|b| *b == b',') {
+            if part == b"-" {
+                into.push(cstr(Vec::new()));
+            } else {
+                into.push(cstr(unhex(part)?));
+            }
+        }
+    }
+    Some((start, into.len()))
+}
+
+fn parse_line(line: &[u8]) -> Option<Line> {
+    let mut c = Line {
         id: -1,
         bin: Vec::new(),
         args: Vec::new(),
         envs: Vec::new(),
-        cwd: None,
-        uid: None,
-        gid: None,
-        pg: None,
-        io: [Io::Unset, Io::Unset, Io::Unset],
-        pre: 0,
-        prefail: None,
-        inj: Vec::new(),
-        payload: Vec::new(),
-        wait_twice: false,
-        try_wait: false,
+        paths: Vec::new(),
+        payloads: Vec::new(),
+        ops: Vec::new(),
+        spawn_ids: Vec::new(),
     };
     for tok in line.split(|b| *b == b' ') {
         if tok.is_empty() {
@@ -227,20 +262,34 @@ fn parse_case(line: &[u8]) -> Option<Case> {
         match k {
             b"id" => c.id = num(v)?,
             b"bin" => c.bin = cstr(unhex(v)?),
-            b"arg" => c.args.push(cstr(unhex(v)?)),
-            b"env" => c.envs.push(cstr(unhex(v)?)),
-            b"cwd" => c.cwd = Some(cstr(unhex(v)?)),
-            b"uid" => c.uid = Some(num(v)?),
-            b"gid" => c.gid = Some(num(v)?),
-            b"pg" => c.pg = Some(num(v)?),
-            b"in" => c.io[0] = parse_io(v)?,
-            b"out" => c.io[1] = parse_io(v)?,
-            b"err" => c.io[2] = parse_io(v)?,
-            b"pre" => c.pre = num(v)?,
-            b"prefail" => {
-                let p = v.iter().position(|b| *b == b':')?;
-                c.prefail = Some((num(&v[..p])?, num(&v[p + 1..])?));
+            b"arg" => {
+                c.args.push(cstr(unhex(v)?));
+                c.ops.push(Op::Arg(c.args.len() - 1));
             }
+            b"args" => {
+                let (a, b) = parse_batch(v, &mut c.args)?;
+                c.ops.push(Op::Args(a, b));
+            }
+            b"env" => {
+                c.envs.push(cstr(unhex(v)?));
+                c.ops.push(Op::Env(c.envs.len() - 1));
+            }
+            b"envs" => {
+                let (a, b) = parse_batch(v, &mut c.envs)?;
+                c.ops.push(Op::Envs(a, b));
+            }
+            b"cwd" => {
+                c.paths.push(cstr(unhex(v)?));
+                c.ops.push(Op::Cwd(c.paths.len() - 1));
+            }
+            b"uid" => c.ops.push(Op::Uid(num(v)?)),
+            b"gid" => c.ops.push(Op::Gid(num(v)?)),
+            b"pg" => c.ops.push(Op::Pg(num(v)?)),
+            b"in" => c.ops.push(Op::Io(0, parse_io(v)?)),
+            b"out" => c.ops.push(Op::Io(1, parse_io(v)?)),
+            b"err" => c.ops.push(Op::Io(2, parse_io(v)?)),
+            b"pre" => c.ops.push(Op::Pre(num(v)?)),
+            b"prefail" => c.ops.push(Op::PreFail(num(v)?)),
             b"inj" => {
                 let mut a = [0i64; 5];
                 let mut n = 0;
@@ -254,16 +303,30 @@ fn parse_case(line: &[u8]) -> Option<Case> {
                 if n != 5 {
                     return None;
                 }
-                c.inj.push(a);
+                c.ops.push(Op::Inj(a));
             }
-            b"payload" => c.payload = unhex(v)?,
-            b"wait2" => c.wait_twice = num(v)? != 0,
-            b"trywait" => c.try_wait = num(v)? != 0,
+            b"payload" => {
+                c.payloads.push(unhex(v)?);
+                c.ops.push(Op::Payload(c.payloads.len() - 1));
+            }
+            b"wait2" => c.ops.push(Op::Wait2(num(v)? != 0)),
+            b"trywait" => c.ops.push(Op::TryWait(num(v)? != 0)),
+            b"holdstdin" => c.ops.push(Op::HoldStdin(num(v)? != 0)),
+            b"closefd" => c.ops.push(Op::CloseFd(num(v)?)),
+            b"spawn" => {
+                let id = num(v)?;
+                c.spawn_ids.push(id);
+                c.ops.push(Op::Spawn(id));
+            }
             _ => return None,
         }
     }
     if c.id < 0 || c.bin.is_empty() {
         return None;
+    }
+    if c.spawn_ids.is_empty() {
+        c.spawn_ids.push(c.id);
+        c.ops.push(Op::Spawn(c.id));
     }
     Some(c)
 }
@@ -329,8 +392,8 @@ pub fn run(path: &[u8]) -> i32 {
         if line.is_empty() || line[0] == b'#' {
             continue;
         }
-        match parse_case(line) {
-            Some(c) => run_case(&c, root_pid, own_pgid),
+        match parse_line(line) {
+            Some(c) => run_line(&c, root_pid, own_pgid),
             None => {
                 bad += 1;
                 marker::report(K_PARSE_ERR, lineno as i64, 0, 0, 0);
@@ -344,45 +407,39 @@ pub fn run(path: &[u8]) -> i32 {
     }
 }
 
-fn run_case(c: &Case, root_pid: i64, own_pgid: i64) {
-    let id = c.id;
-    // descriptors handed over with Stdio::RawFd: opened here, CLOEXEC, before anything is armed
-    let mut raw: [Option<i32>; 3] = [None, None, None];
-    let mut raw_id: [Option<(u64, u64)>; 3] = [None, None, None];
-    for s in 0..3 {
-        let fd = match &c.io[s] {
-            Io::FileR(p) => sys::open(p, 0o2000000, 0),
-            Io::FileW(p) => sys::open(p, 0o2000000 | 0o1 | 0o100 | 0o2000, 0o666), // WRONLY|CREAT|APPEND|CLOEXEC
-            Io::FileRW(p) => sys::open(p, 0o2000000 | 0o2 | 0o100, 0o666), // RDWR|CREAT|CLOEXEC
-            Io::Share(k) if *k < s => match raw[*k] {
-                Some(fd) => fd as isize,
-                None => -1,
-            },
-            Io::Raw(n) => *n as isize,
-            _ => continue,
-        };
-        if fd < 0 {
-            marker::report(K_PARSE_ERR, -id, s as i64, fd as i64, 0);
-            return;
-        }
-        raw[s] = Some(fd as i32);
-        if let Some((dev, ino, _)) = sys::fstat(fd) {
-            marker::report(K_RAWFD, id, s as i64, dev as i64, ino as i64);
-            raw_id[s] = Some((dev, ino));
+/// State that lives across the builder calls and spawns of one line
+struct St {
+    raw: [Option<i32>; 3],
+    raw_id: [Option<(u64, u64)>; 3],
+    raw_owned: [bool; 3], // opened here (file), to be closed here if the spawn did not take it over
+    saved: [isize; 3],    // CLOEXEC copies of the caller's own 0-2 that were handed over or closed
+    payload: usize,       // index + 1 into Line::payloads, 0 = none
+    wait2: bool,
+    try_wait: bool,
+    hold_stdin: bool,
+    inj: Vec<[i64; 5]>,
+    closures: i64,
+}
+
+fn save_std(st: &mut St, n: i32) {
+    if (0..3).contains(&n) && st.saved[n as usize] < 0 {
+        st.saved[n as usize] = sys::dupfd_cloexec(n as isize, 500);
+    }
+}
+
+fn restore_std(st: &mut St) {
+    for n in 0..3 {
+        if st.saved[n] >= 0 {
+            sys::dup3(st.saved[n], n as isize);
+            sys::close(st.saved[n]);
+            st.saved[n] = -1;
         }
     }
-    // the caller's own standard descriptors handed over as RawFd are closed by the spawn (ownership transfer):
-    // keep a CLOEXEC copy to put them back afterwards
-    let mut saved: [isize; 3] = [-1, -1, -1];
-    for s in 0..3 {
-        if let Io::Raw(n) = &c.io[s] {
-            if (0..3).contains(n) && saved[*n as usize] < 0 {
-                saved[*n as usize] = sys::dupfd_cloexec(*n as isize, 500);
-            }
-        }
-    }
+}
+
+fn run_line(c: &Line, root_pid: i64, own_pgid: i64) {
     let Ok(bin) = UnixStr::try_from_bytes(&c.bin) else {
-        marker::report(K_PARSE_ERR, -id, 10, 0, 0);
+        marker::report(K_PARSE_ERR, -c.id, 10, 0, 0);
         return;
     };
     let mut arg_refs: Vec<&UnixStr> = Vec::with_capacity(c.args.len());
@@ -390,103 +447,222 @@ fn run_case(c: &Case, root_pid: i64, own_pgid: i64) {
         match UnixStr::try_from_bytes(a) {
             Ok(u) => arg_refs.push(u),
             Err(_) => {
-                marker::report(K_PARSE_ERR, -id, 11, 0, 0);
+                marker::report(K_PARSE_ERR, -c.id, 11, 0, 0);
                 return;
             }
         }
     }
-    let mut env_strings: Vec<UnixString> = Vec::with_capacity(c.envs.len());
+    let mut path_refs: Vec<&UnixStr> = Vec::with_capacity(c.paths.len());
+    for a in &c.paths {
+        match UnixStr::try_from_bytes(a) {
+            Ok(u) => path_refs.push(u),
+            Err(_) => {
+                marker::report(K_PARSE_ERR, -c.id, 13, 0, 0);
+                return;
+            }
+        }
+    }
+    let mut env_strings: Vec<Option<UnixString>> = Vec::with_capacity(c.envs.len());
     for e in &c.envs {
         match UnixString::try_from_bytes(e) {
-            Ok(u) => env_strings.push(u),
+            Ok(u) => env_strings.push(Some(u)),
             Err(_) => {
-                marker::report(K_PARSE_ERR, -id, 12, 0, 0);
+                marker::report(K_PARSE_ERR, -c.id, 12, 0, 0);
                 return;
             }
         }
     }
-    let cwd_ref = match &c.cwd {
-        Some(p) => match UnixStr::try_from_bytes(p) {
-            Ok(u) => Some(u),
-            Err(_) => {
-                marker::report(K_PARSE_ERR, -id, 13, 0, 0);
-                return;
-            }
-        },
-        None => None,
+    let multi = c.spawn_ids.len() > 1;
+    let mut spawn_ix = 0usize;
+    let mut st = St {
+        raw: [None, None, None],
+        raw_id: [None, None, None],
+        raw_owned: [false, false, false],
+        saved: [-1, -1, -1],
+        payload: 0,
+        wait2: false,
+        try_wait: false,
+        hold_stdin: false,
+        inj: Vec::new(),
+        closures: 0,
     };
-
+    let mut id = c.spawn_ids[0];
+    CUR_CASE.store(id, Ordering::Relaxed);
     marker::begin(SCENARIO, id, 0);
     let Ok(mut cmd) = Command::new(bin) else {
         marker::report(K_PARSE_ERR, -id, 14, 0, 0);
         marker::end(SCENARIO, id, 0, 0, 0);
         return;
     };
-    // arguments alternately one by one and in bulk, as the two entry points share the vector upkeep
-    if id % 2 == 0 {
-        for a in &arg_refs {
-            cmd.arg(a);
-        }
-    } else {
-        cmd.args(arg_refs.iter().copied());
-    }
-    if id % 3 == 0 {
-        cmd.envs(env_strings.into_iter());
-    } else {
-        for e in env_strings {
-            cmd.env(e);
-        }
-    }
-    if let Some(d) = cwd_ref {
-        cmd.cwd(d);
-    }
-    if let Some(u) = c.uid {
-        cmd.uid(u as u32);
-    }
-    if let Some(g) = c.gid {
-        cmd.gid(g as u32);
-    }
-    if let Some(p) = c.pg {
-        cmd.pgroup(if p == -1 { own_pgid as i32 } else { p as i32 });
-    }
-    for s in 0..3 {
-        let st = match &c.io[s] {
-            Io::Unset => continue,
-            Io::Inherit => Stdio::Inherit,
-            Io::Null => Stdio::Null,
-            Io::Pipe => Stdio::MakePipe,
-            Io::FileR(_) | Io::FileW(_) | Io::FileRW(_) | Io::Share(_) | Io::Raw(_) => match Fd::try_new(raw[s].unwrap_or(-1)) {
-                Ok(fd) => Stdio::RawFd(fd),
-                Err(_) => continue,
-            },
-        };
-        match s {
-            0 => cmd.stdin(st),
-            1 => cmd.stdout(st),
-            _ => cmd.stderr(st),
-        };
-    }
-    let total_closures = c.pre + i64::from(c.prefail.is_some());
-    for idx in 0..total_closures {
-        let fail = match c.prefail {
-            Some((at, code)) if at == idx => Some(code),
-            _ => None,
-        };
-        let f: Box<dyn FnMut() -> tiny_std::Result<()> + Send + Sync> = Box::new(move || {
-            marker::report(K_PREEXEC, id, idx, fail.unwrap_or(0), 0);
-            match fail {
-                Some(code) => Err(Error::Os {
-                    msg: "c13 pre-exec closure",
-                    code: Errno::new(code as i32),
-                }),
-                None => Ok(()),
+    for op in &c.ops {
+        match op {
+            Op::Arg(i) => {
+                cmd.arg(arg_refs[*i]);
             }
-        });
-        unsafe {
-            cmd.pre_exec(f);
+            Op::Args(a, b) => {
+                cmd.args(arg_refs[*a..*b].iter().copied());
+            }
+            Op::Env(i) => {
+                if let Some(e) = env_strings[*i].take() {
+                    cmd.env(e);
+                }
+            }
+            Op::Envs(a, b) => {
+                let mut batch = Vec::with_capacity(*b - *a);
+                for i in *a..*b {
+                    if let Some(e) = env_strings[i].take() {
+                        batch.push(e);
+                    }
+                }
+                cmd.envs(batch.into_iter());
+            }
+            Op::Cwd(i) => {
+                cmd.cwd(path_refs[*i]);
+            }
+            Op::Uid(u) => {
+                cmd.uid(*u as u32);
+            }
+            Op::Gid(g) => {
+                cmd.gid(*g as u32);
+            }
+            Op::Pg(p) => {
+                cmd.pgroup(if *p == -1 { own_pgid as i32 } else { *p as i32 });
+            }
+            Op::Io(s, io) => {
+                let s = *s;
+                let st_io = match io {
+                    Io::Inherit => Stdio::Inherit,
+                    Io::Null => Stdio::Null,
+                    Io::Pipe => Stdio::MakePipe,
+                    _ => {
+                        // descriptors handed over with Stdio::RawFd: files are opened here, CLOEXEC
+                        let (fd, owned) = match io {
+                            Io::FileR(p) => (sys::open(p, 0o2000000, 0), true),
+                            Io::FileW(p) => (sys::open(p, 0o2000000 | 0o1 | 0o100 | 0o2000, 0o666), true), // WRONLY|CREAT|APPEND
+                            Io::FileRW(p) => (sys::open(p, 0o2000000 | 0o2 | 0o100, 0o666), true), // RDWR|CREAT
+                            Io::Share(k) if *k < 3 => (st.raw[*k].map_or(-1, |fd| fd as isize), false),
+                            Io::Raw(n) => {
+                                // the caller's own 0-2 are taken over (and closed) by the spawn: keep a copy
+                                save_std(&mut st, *n);
+                                (*n as isize, false)
+                            }
+                            _ => (-1, false),
+                        };
+                        if fd < 0 {
+                            marker::report(K_PARSE_ERR, -id, s as i64, fd as i64, 0);
+                            continue;
+                        }
+                        st.raw[s] = Some(fd as i32);
+                        st.raw_owned[s] = owned;
+                        if let Some((dev, ino, _)) = sys::fstat(fd) {
+                            marker::report(K_RAWFD, id, s as i64, dev as i64, ino as i64);
+                            st.raw_id[s] = Some((dev, ino));
+                        }
+                        match Fd::try_new(fd as i32) {
+                            Ok(fd) => Stdio::RawFd(fd),
+                            Err(_) => continue,
+                        }
+                    }
+                };
+                match s {
+                    0 => cmd.stdin(st_io),
+                    1 => cmd.stdout(st_io),
+                    _ => cmd.stderr(st_io),
+                };
+            }
+            Op::Pre(n) => {
+                for _ in 0..*n {
+                    let idx = st.closures;
+                    st.closures += 1;
+                    let f: Box<dyn FnMut() -> tiny_std::Result<()> + Send + Sync> = Box::new(move || {
+                        marker::report(K_PREEXEC, CUR_CASE.load(Ordering::Relaxed), idx, 0, 0);
+                        Ok(())
+                    });
+                    unsafe {
+                        cmd.pre_exec(f);
+                    }
+                }
+            }
+            Op::PreFail(code) => {
+                let idx = st.closures;
+                st.closures += 1;
+                let code = *code;
+                let f: Box<dyn FnMut() -> tiny_std::Result<()> + Send + Sync> = Box::new(move || {
+                    marker::report(K_PREEXEC, CUR_CASE.load(Ordering::Relaxed), idx, code, 0);
+                    Err(Error::Os {
+                        msg: "c13 pre-exec closure",
+                        code: Errno::new(code as i32),
+                    })
+                });
+                unsafe {
+                    cmd.pre_exec(f);
+                }
+            }
+            Op::Inj(j) => st.inj.push(*j),
+            Op::Payload(i) => st.payload = *i + 1,
+            Op::Wait2(b) => st.wait2 = *b,
+            Op::TryWait(b) => st.try_wait = *b,
+            Op::HoldStdin(b) => st.hold_stdin = *b,
+            Op::CloseFd(n) => {
+                if (0..3).contains(n) {
+                    save_std(&mut st, *n as i32);
+                    sys::close(*n as isize);
+                }
+            }
+            Op::Spawn(_) => {
+                let empty: Vec<u8> = Vec::new();
+                let payload: &[u8] = if st.payload > 0 { &c.payloads[st.payload - 1] } else { &empty };
+                spawn_and_observe(&mut cmd, id, root_pid, &mut st, payload);
+                if multi {
+                    // the next spawn of the same Command execs the same program: move this dump out of the way
+                    let mut from = c.bin[..c.bin.len() - 1].to_vec();
+                    from.extend_from_slice(b".dump");
+                    let mut to = from.clone();
+                    to.push(b'.');
+                    let mut digits = [0u8; 20];
+                    let mut n = id;
+                    let mut k = 0;
+                    loop {
+                        digits[k] = b'0' + (n % 10) as u8;
+                        k += 1;
+                        n /= 10;
+                        if n == 0 {
+                            break;
+                        }
+                    }
+                    while k > 0 {
+                        k -= 1;
+                        to.push(digits[k]);
+                    }
+                    from.push(0);
+                    to.push(0);
+                    sys::rename(&from, &to);
+                }
+                marker::end(SCENARIO, id, 0, 0, 0);
+                spawn_ix += 1;
+                if spawn_ix < c.spawn_ids.len() {
+                    id = c.spawn_ids[spawn_ix];
+                    CUR_CASE.store(id, Ordering::Relaxed);
+                    marker::begin(SCENARIO, id, 0);
+                }
+            }
         }
     }
-    for j in &c.inj {
+    restore_std(&mut st);
+}
+
+fn report_wait(kind_marker: i64, id: i64, r: tiny_std::Result<i32>, extra: i64) {
+    match r {
+        Ok(st) => marker::report(kind_marker, id, 1, st as i64, extra),
+        Err(e) => {
+            let (k, code) = err_fields(&e);
+            marker::report(kind_marker, id, k, code, extra);
+        }
+    }
+}
+
+fn spawn_and_observe(cmd: &mut Command, id: i64, root_pid: i64, st: &mut St, payload: &[u8]) {
+    for j in st.inj.drain(..) {
         marker::inject(j[0], j[1], j[2], j[3], j[4]);
     }
 
@@ -504,22 +680,17 @@ fn run_case(c: &Case, root_pid: i64, own_pgid: i64) {
         sys::exit_group(77);
     }
     marker::disarm();
-    for n in 0..3 {
-        if saved[n] >= 0 {
-            sys::dup3(saved[n], n as isize);
-            sys::close(saved[n]);
-        }
-    }
     // a RawFd descriptor is owned by the spawn and normally closed by it; when spawn failed before
     // taking it over it is still ours: close it if (and only if) it still designates the same file
     for s in 0..3 {
-        if let (Io::FileR(_) | Io::FileW(_) | Io::FileRW(_), Some(fd)) = (&c.io[s], raw[s]) {
-            if let (Some(now), Some(was)) = (sys::fstat(fd as isize), raw_id[s]) {
+        if let (true, Some(fd)) = (st.raw_owned[s], st.raw[s]) {
+            if let (Some(now), Some(was)) = (sys::fstat(fd as isize), st.raw_id[s]) {
                 if (now.0, now.1) == was {
                     sys::close(fd as isize);
                 }
             }
         }
+        st.raw_owned[s] = false;
     }
     if let Ok(mut child) = res {
         marker::report(K_CHILD_PID, id, child.get_pid() as i64, 0, 0);
@@ -538,11 +709,12 @@ fn run_case(c: &Case, root_pid: i64, own_pgid: i64) {
                 marker::report(K_PIPE, id, 2, dev as i64, ino as i64);
             }
         }
-        if let Some(mut p) = child.stdin.take() {
+        let hold = st.hold_stdin && !st.try_wait && child.stdin.is_some();
+        if let Some(p) = child.stdin.as_mut() {
             let mut off = 0usize;
             let mut ok = true;
-            while off < c.payload.len() {
-                match p.write(&c.payload[off..]) {
+            while off < payload.len() {
+                match p.write(&payload[off..]) {
                     Ok(0) | Err(_) => {
                         ok = false;
                         break;
@@ -550,10 +722,15 @@ fn run_case(c: &Case, root_pid: i64, own_pgid: i64) {
                     Ok(n) => off += n,
                 }
             }
-            marker::report(K_STDIN_WRITE, id, if ok { off as i64 } else { -1 }, 0, 0);
-            drop(p); // EOF for the helper
+            marker::report(K_STDIN_WRITE, id, if ok { off as i64 } else { -1 }, i64::from(hold), 0);
         }
-        let mut outs: [Option<Vec<u8>>; 2] = [None, None];
+        if hold {
+            // the Child still owns its stdin pipe: closing it (EOF for the program) is wait()'s job.
+            // The helper writes its few output bytes only after EOF, they fit into the pipe buffers.
+            report_wait(K_WAITED, id, child.wait(), 0);
+        } else {
+            drop(child.stdin.take()); // EOF for the helper
+        }
         for (ix, pipe) in [child.stdout.take(), child.stderr.take()].into_iter().enumerate() {
             let Some(mut p) = pipe else { continue };
             let mut acc = Vec::new();
@@ -576,15 +753,16 @@ fn run_case(c: &Case, root_pid: i64, own_pgid: i64) {
             }
             marker::report(K_PIPE_READ, id, ix as i64 + 1, if ok { acc.len() as i64 } else { -1 }, 0);
             marker::bytes(acc.as_ptr(), acc.len(), 1000 + ix as i64 + 1);
-            outs[ix] = Some(acc);
         }
-        if c.try_wait {
+        if hold {
+            // already waited
+        } else if st.try_wait {
             // poll with try_wait until it reports the status; e-field = number of `None` answers
             let mut nones: i64 = 0;
             loop {
                 match child.try_wait() {
-                    Ok(Some(st)) => {
-                        marker::report(K_WAITED, id, 1, st as i64, nones);
+                    Ok(Some(status)) => {
+                        marker::report(K_WAITED, id, 1, status as i64, nones);
                         break;
                     }
                     Ok(None) => {
@@ -603,23 +781,13 @@ fn run_case(c: &Case, root_pid: i64, own_pgid: i64) {
                 }
             }
         } else {
-            match child.wait() {
-                Ok(st) => marker::report(K_WAITED, id, 1, st as i64, 0),
-                Err(e) => {
-                    let (k, code) = err_fields(&e);
-                    marker::report(K_WAITED, id, k, code, 0);
-                }
-            }
+            report_wait(K_WAITED, id, child.wait(), 0);
         }
-        if c.wait_twice {
-            match child.wait() {
-                Ok(st) => marker::report(K_SECOND_WAIT, id, 1, st as i64, 0),
-                Err(e) => {
-                    let (k, code) = err_fields(&e);
-                    marker::report(K_SECOND_WAIT, id, k, code, 0);
-                }
-            }
+        if st.wait2 {
+            report_wait(K_SECOND_WAIT, id, child.wait(), 0);
         }
     }
-    marker::end(SCENARIO, id, 0, 0, 0);
+    st.raw = [None, None, None];
+    st.raw_id = [None, None, None];
+    restore_std(st);
 }
